@@ -244,6 +244,17 @@ def run(ctx):
         for i in range(n):
             g = gen_xml.XGen(rng, anomalies=0.05, hostile=0.15, images=False, textboxes=(i % 3 == 0), switches=0.6)
             pkg = g.package()
+            if i % 5 == 2:
+                # range markup sits legally BETWEEN the rows and BETWEEN the cells of a table (children of w:tbl and of w:tr):
+                # those bookmarks are bookmarks too, and internal links to them must resolve
+                from mammoth.docx.xmlparser import element as X, text as XT
+                cell = lambda s_: X("w:tc", {}, [X("w:p", {}, [X("w:r", {}, [X("w:t", {}, [XT(s_)])])])])
+                pkg.body.append(X("w:tbl", {}, [X("w:tr", {}, [cell("r1c1"), X("w:bookmarkStart", {"w:id": "901", "w:name": "between_cells"}),
+                                                                  X("w:bookmarkEnd", {"w:id": "901"}), cell("r1c2")]),
+                                                 X("w:bookmarkStart", {"w:id": "902", "w:name": "between_rows"}), X("w:bookmarkEnd", {"w:id": "902"}),
+                                                 X("w:tr", {}, [cell("r2c1"), cell("r2c2")])]))
+                pkg.body.append(X("w:p", {}, [X("w:hyperlink", {"w:anchor": "between_rows"}, [X("w:r", {}, [X("w:t", {}, [XT("to the row mark")])])]),
+                                              X("w:hyperlink", {"w:anchor": "between_cells"}, [X("w:r", {}, [X("w:t", {}, [XT("to the cell mark")])])])]))
             prefix = rng.choice(["", "", "doc-", 'p"<'])
             sm = rng.choice(MAPS)
             opts = {"style_map": sm, "include_default_style_map": True, "include_embedded_style_map": True,
